@@ -94,6 +94,7 @@ type hxSrv struct {
 	blockedRead  bool // client read with nothing queued and no stall configured
 	tlsActive    bool
 	phase        string
+	probe        func() bool // C13: is the send lock held? (nil: not checked)
 	armChecks    int
 	expectTimeout time.Duration
 	posCount     map[string]int
@@ -542,6 +543,9 @@ func (c *hxConn) Read(p []byte) (int, error) {
 		s.blockedRead = true
 		return 0, io.EOF
 	}
+	if s.probe != nil {
+		svAssert(s.probe(), "C13 read from the shared connection without the send lock")
+	}
 	n := copy(p, s.out)
 	s.out = s.out[n:]
 	s.greetingRead = true
@@ -555,6 +559,9 @@ func (c *hxConn) Write(p []byte) (int, error) {
 	}
 	if s.monitor {
 		svAssert(s.greetingRead, "C04 data sent before the greeting was read")
+	}
+	if s.probe != nil {
+		svAssert(s.probe(), "C13 write to the shared connection without the send lock")
 	}
 	s.feed(p)
 	return len(p), nil
